@@ -422,12 +422,12 @@ Qed.
 (* with the partial-result rule, a failing nsqlookupd takes nothing away from what the
    answering ones know — for every subset of failing lookupds *)
 Lemma query_covers c ls t k ch :
-  g_partial_query c = true ->
+  g_partial_query c = true -> g_ask_any_state c = true ->
   In k ls -> k_conf k = true -> k_info k = true -> l_up k = true -> l_http k = true ->
   In (t, ch) (l_known k) -> In ch (query c ls t).
 Proof.
-  intros G Hk C I U Ht Kn. unfold query. rewrite G. cbn [orb]. unfold query_union. apply in_flat_map. exists k. split; auto.
-  unfold asked, answers. rewrite C, I, U, Ht. cbn. apply in_map_iff. exists (t, ch). split; auto.
+  intros G GA Hk C I U Ht Kn. unfold query. rewrite G. cbn [orb]. unfold query_union. apply in_flat_map. exists k. split; auto.
+  unfold asked, answers. rewrite C, I, U, Ht, GA. cbn. apply in_map_iff. exists (t, ch). split; auto.
   apply filter_In. split; auto. cbn. apply N.eqb_refl.
 Qed.
 
@@ -437,10 +437,11 @@ Lemma query_sound c ls t ch :
   exists k, In k ls /\ k_conf k = true /\ k_info k = true /\ l_up k = true /\ l_http k = true /\ In (t, ch) (l_known k).
 Proof.
   unfold query. intros H.
-  assert (U : In ch (query_union ls t)). { destruct (g_partial_query c || negb (query_fails ls)); auto. destruct H. }
+  assert (U : In ch (query_union c ls t)). { destruct (g_partial_query c || negb (query_fails c ls)); auto. destruct H. }
   unfold query_union in U. apply in_flat_map in U. destruct U as (k & Hk & Hc).
   unfold asked, answers in Hc.
-  destruct (k_conf k) eqn:C, (k_info k) eqn:I, (l_up k) eqn:Up, (l_http k) eqn:Ht; cbn in Hc; try (destruct Hc; fail).
+  destruct (k_conf k) eqn:C, (k_info k) eqn:I, (l_up k) eqn:Up, (l_http k) eqn:Ht,
+           (g_ask_any_state c || (k_state k =? st_connected)%Z); cbn in Hc; try (destruct Hc; fail).
   apply in_map_iff in Hc. destruct Hc as ((t', c') & E & F). cbn in E. subst c'.
   apply filter_In in F. destruct F as [F1 F2]. cbn in F2. apply N.eqb_eq in F2. subst t'.
   exists k. auto 10.
@@ -448,13 +449,13 @@ Qed.
 
 (* all asked lookupds fail: nothing is pre-created (GetTopic logs a warning and starts the topic) *)
 Lemma query_all_fail c ls t :
-  (forall k, In k ls -> asked k = true -> answers k = false) -> query c ls t = [].
+  (forall k, In k ls -> asked c k = true -> answers k = false) -> query c ls t = [].
 Proof.
   intros H. unfold query.
-  assert (U : query_union ls t = []).
+  assert (U : query_union c ls t = []).
   { unfold query_union. induction ls as [|k r IH]; cbn; auto.
     rewrite IH by (intros; apply H; auto; right; auto).
-    destruct (asked k) eqn:A; cbn; auto. rewrite (H k (or_introl eq_refl) A). reflexivity. }
+    destruct (asked c k) eqn:A; cbn; auto. rewrite (H k (or_introl eq_refl) A). reflexivity. }
   rewrite U. destruct (_ || _); reflexivity.
 Qed.
 
